@@ -298,6 +298,16 @@ fn interp(
     (Ok(resp), notes)
 }
 
+/// FNV-1a (32 bit) of the script text: lets a reader of the trace tell which script an invocation ran
+pub fn fnv(text: &str) -> u32 {
+    let mut h: u32 = 0x811c9dc5;
+    for b in text.bytes() {
+        h ^= b as u32;
+        h = h.wrapping_mul(0x01000193);
+    }
+    h
+}
+
 fn fmt_info(i: &ContractInfoResponse) -> String {
     format!("{},{},{}", i.code_id, i.creator, i.admin.as_ref().map(|a| a.to_string()).unwrap_or_else(|| "~".into()))
 }
@@ -318,7 +328,7 @@ impl Scripted {
             None => (Err(()), vec!["unparsed".into()]),
         };
         let line = format!(
-            "{} {} {} {} {} {} {} {}|{}",
+            "{} {} {} {} {} {} {} {}#{:08x}|{}",
             env.contract.address,
             entry,
             self.tag,
@@ -327,6 +337,7 @@ impl Scripted {
             env.block.height,
             env.block.time.nanos(),
             extra,
+            fnv(&script_text),
             notes.join(";")
         );
         let cur = CUR_APP.with(|c| *c.borrow());
